@@ -453,8 +453,15 @@ def build_case(w, prog, log, clock, scratch, sink_factory, hints=()):
             case.useFixture(mk_fixture(0, term[1], None, case, fail=(term[2], term[4], term[3])))
         raise AssertionError('harness: bad terminal %r' % (term,))
 
+    pending_handlers = []
+
     class T(tt.TestCase):
         def setUp(self):
+            # realisation hint ['late-handlers']: the user's handlers are inserted by the test itself, as the first thing
+            # setUp does (doc/for-framework-folk.rst: "self.exception_handlers.insert(...)"; the list "is able to be
+            # modified at any time"), not on the instance before run()
+            while pending_handlers:
+                self.exception_handlers.insert(0, pending_handlers.pop(0))
             return run_stage(self, su, super().setUp)
 
         def tearDown(self):
@@ -495,7 +502,10 @@ def build_case(w, prog, log, clock, scratch, sink_factory, hints=()):
             def fn(c, result, e, _m=meth):
                 getattr(result, _m)(c, details=c.getDetails())
         hcls = {'exc': Exception, 'base': BaseException}.get(cls) if isinstance(cls, str) else None
-        case.exception_handlers.insert(0, (hcls or w.cls(cls), fn))
+        if ['late-handlers'] in hints:
+            pending_handlers.append((hcls or w.cls(cls), fn))
+        else:
+            case.exception_handlers.insert(0, (hcls or w.cls(cls), fn))
     for h in range(n_on_exc):
         case.addOnException(lambda exc_info, _h=h: log.append(['onExc', _h, w.canon_exc(exc_info[1])]))
     return case
@@ -856,6 +866,8 @@ def gen_input(rng, focus='all'):
         k = rng.randrange(8)
         if k:
             hints.append(['skip', k])
+    if prog[6] and rng.random() < 0.4:
+        hints.append(['late-handlers'])
     return [prog, runs, hints] if hints else [prog, runs]
 
 
@@ -893,7 +905,7 @@ def exc_kinds(prog):
 
 def features(inp, traces):
     prog, runs = inp[0], inp[1]
-    f = ['flavour=' + prog[-1], 'runs=%d' % runs] + (['hint:fixture-getDetails-raises'] if len(inp) > 2 and any(isinstance(h, int) for h in inp[2]) else []) + ['hint:skip-decorator-%d' % h[1] for h in (inp[2] if len(inp) > 2 else []) if isinstance(h, list) and h[0] == 'skip'] + ['hint:%s' % h[0] for h in (inp[2] if len(inp) > 2 else []) if isinstance(h, list) and h[0] in ('late-upcall', 'runner', 'empty-reason', 'object-reason', 'kwfn')] + ['hint:retval-%d' % h[2] for h in (inp[2] if len(inp) > 2 else []) if isinstance(h, list) and h[0] == 'retval'] + ['hint:scratch-%d' % h[1] for h in (inp[2] if len(inp) > 2 else []) if isinstance(h, list) and h[0] == 'scratch'] + ['hint:helper-raises' for h in (inp[2] if len(inp) > 2 else []) if isinstance(h, list) and h[0] == 'api'][:1]
+    f = ['flavour=' + prog[-1], 'runs=%d' % runs] + (['hint:fixture-getDetails-raises'] if len(inp) > 2 and any(isinstance(h, int) for h in inp[2]) else []) + ['hint:skip-decorator-%d' % h[1] for h in (inp[2] if len(inp) > 2 else []) if isinstance(h, list) and h[0] == 'skip'] + ['hint:%s' % h[0] for h in (inp[2] if len(inp) > 2 else []) if isinstance(h, list) and h[0] in ('late-upcall', 'runner', 'empty-reason', 'object-reason', 'kwfn', 'late-handlers')] + ['hint:retval-%d' % h[2] for h in (inp[2] if len(inp) > 2 else []) if isinstance(h, list) and h[0] == 'retval'] + ['hint:scratch-%d' % h[1] for h in (inp[2] if len(inp) > 2 else []) if isinstance(h, list) and h[0] == 'scratch'] + ['hint:helper-raises' for h in (inp[2] if len(inp) > 2 else []) if isinstance(h, list) and h[0] == 'api'][:1]
     sts = list(all_stages(prog))
     faulty = [s for s in sts if s[3] != 'ret']
     f.append('stages=%s' % (len(sts) if len(sts) < 8 else '8+'))
